@@ -513,12 +513,12 @@ fn server_engine(rep: &Report, seed: u64, tier: Tier) {
         let kind = rng.below(3);
         let (_src, _d, _b, valid) = base_archive(&mut rng, comp, kind);
         let target = rng.below(4);
-        let how = rng.below(11);
+        let how = rng.below(13);
         // A third of the servers keep lying from that request on (a truncated file on a
         // static server, a broken proxy): the client must give up, not ask forever.
         let persistent = rng.chance(1, 3);
         let lie_seed = rng.next_u64();
-        let names = ["extra bytes", "long content-length", "short content-length", "wrong status + html", "empty body", "status 200 whole file", "random bytes longer than asked", "416 empty body", "half of the requested bytes", "connection closed without a reply", "a reply that is not HTTP"];
+        let names = ["extra bytes", "long content-length", "short content-length", "wrong status + html", "empty body", "status 200 whole file", "random bytes longer than asked", "416 empty body", "half of the requested bytes", "connection closed without a reply", "a reply that is not HTTP", "content-length 2^62", "content-length 2^40"];
         let desc = format!("request#{}{}:{}", target, if persistent { "+" } else { "" }, names[how as usize]);
         let server = Server::start(
             Arc::new(valid.clone()),
@@ -531,6 +531,8 @@ fn server_engine(rep: &Report, seed: u64, tier: Tier) {
                 let mut rng = Rng::new(lie_seed);
                 let correct = f[(a as usize).min(f.len())..(a as usize + len).min(f.len())].to_vec();
                 match how {
+                    11 => Action::Custom { status: 206, declared_len: Some(1 << 62), body: correct },
+                    12 => Action::Custom { status: 206, declared_len: Some(1 << 40), body: correct },
                     9 => Action::Drop,
                     10 => Action::Raw(b"SSH-2.0-OpenSSH_9.2\r\n\x00\x01garbage".to_vec()),
                     7 => Action::Custom { status: 416, declared_len: None, body: vec![] },
